@@ -36,6 +36,10 @@ CHECKS = {
             "patterns x rows, through all five text compilers, and on every rule line of every shipped rule file (rows synthesised from the line "
             "plus near-miss mutations); match result and extracted key must equal the reference semantics. Held = agreed on all observed pairs.",
             "Trusted: vf/ref/rulelang.py (R1) and vf/ref/deploy.py (R7). Shipped-line regex fragments are instantiated by an sre_parse sampler; unsampled lines are counted.", "4/C07"),
+    "C16": ("relational (differential) monitor between two real front ends on the same inputs, including the CLI file workers on files in a scratch directory",
+            "Every fixture pair, per-vendor cross products and random recombinations of fixture trees, for stub hardware and the hardware families the templates branch on, are run "
+            "through _read_old_new_diff_patch / file_patch_worker / file_diff_worker and through _diff_and_patch; ordered command paths and diff entries must be equal.",
+            "No reference model needed (two executions of the real code are compared). No ACL, implicit defaults off.", "4/C16"),
     "C18": ("invariant monitors on hardware/vendor/rulebook resolution over the whole device database (exhaustive), registration-order permutation, fresh-process differential",
             "For every one of the 168 device-database entries (model strings synthesised from the regex chain) and every vendor's canonical hardware, "
             "the run observes the hardware attribute hierarchy, the vendor chosen by fresh Registry objects under every rotation and the reversal of the "
